@@ -1259,7 +1259,7 @@ def seq_remove_variants(ctx):
     v, loc = seq_loc(ex, st, ctx.args[0])
     i = concrete(ctx.args[1].t)
     is_vec = ctx.callee.startswith('Vec::')
-    if isinstance(v, SeqV) and v.items is not None and i is None and is_vec and ctx.callee.endswith('::remove') and len(v.items) <= 8:
+    if isinstance(v, SeqV) and v.items is not None and i is None and is_vec and ctx.callee.endswith(('::remove', '::swap_remove')) and len(v.items) <= 8:
         # symbolic index into an explicit list: Vec::remove panics unless index < len; one successor per position
         idx = ctx.args[1].t
         ex.require(st, z3.ULT(idx, BV(len(v.items), 64)), 'index', 'removal index out of bounds')
@@ -1271,7 +1271,12 @@ def seq_remove_variants(ctx):
             s2 = st.fork()
             ex.assume(s2, idx == BV(k, 64))
             items = list(v.items)
-            x = items.pop(k)
+            if ctx.callee.endswith('::swap_remove'):
+                x = items[k]
+                items[k] = items[-1]
+                items.pop()
+            else:
+                x = items.pop(k)
             ex.store(s2, loc[0], loc[1], SeqV.from_items(items, v.elem_ty, v.kind))
             outs.append((s2, x))
         if not outs:
@@ -1983,3 +1988,259 @@ def io_error_kind(ctx):
         kinds[key] = d
         st.env['io_error_kinds'] = kinds
     return Agg('ErrorKind', {}, kinds[key], {}, vs)
+
+
+@contract(r'^(?:std::option::)?Option::<.*>::filter::<.*>$')
+def option_filter(ctx):
+    """Option::filter(pred): Some(x) if it was Some(x) and pred(&x), else None"""
+    ex, st = ctx.ex, ctx.st
+    v, _ = to_enum(ex, st, ctx.args[0])
+    d = v.discr
+    is_some = z3.BoolVal(d == 1) if isinstance(d, int) else simp(d == BV(1, 64))
+    t, f = ex.branch(st, is_some)
+    outs = []
+    if t:
+        s2 = st.fork() if f else st
+        ex.assume(s2, is_some)
+        hm = re.match(r'^(?:std::option::)?Option::<(.*)>::filter::<', ctx.callee, re.S)
+        x = payload(ex, s2, v, 1, 0, hm.group(1).strip() if hm else 'unknown')
+        c2 = type(ctx)(ex, s2, ctx.fr, ctx.callee, ctx.args, ctx.dest_ty)
+        rs = apply_callable(c2, ctx.args[1], [Ref(s2.alloc(x), ())])
+        if rs is None:
+            return NotImplemented
+        for s3, r in rs:
+            if not isinstance(r, Bool):
+                return NotImplemented
+            t2, f2 = ex.branch(s3, r.t)
+            if t2:
+                s4 = s3.fork() if f2 else s3
+                ex.assume(s4, r.t)
+                outs.append((s4, mk_option(ex, x)))
+            if f2:
+                if t2:
+                    ex.assume(s3, z3.Not(r.t))
+                outs.append((s3, mk_option(ex, None)))
+    if f:
+        if t:
+            ex.assume(st, z3.Not(is_some))
+        outs.append((st, mk_option(ex, None)))
+    return outs
+
+
+@contract(r'^core::num::<impl (u16|u32|u64|i16|i32|i64|usize)>::from_be_bytes$|^(u16|u32|u64|i16|i32|i64|usize)::from_be_bytes$|^core::num::from_be_bytes$'
+          r'|^core::num::<impl (u16|u32|u64|i16|i32|i64|usize)>::from_le_bytes$|^(u16|u32|u64|i16|i32|i64|usize)::from_le_bytes$')
+def int_from_bytes(ctx):
+    """uN::from_be_bytes / from_le_bytes on a byte array"""
+    from engine import INT_TYPES
+    a = ctx.args[0]
+    if isinstance(a, Ref):
+        a = ctx.ex.deref(ctx.st, a)
+    n = a.clen() if isinstance(a, Bytes) else None
+    if n not in (2, 4, 8):
+        return NotImplemented
+    bs = [a.at(i) for i in range(n)]
+    if 'from_le' in ctx.callee:
+        bs = bs[::-1]
+    dt = (ctx.dest_ty or '').strip()
+    bits, sg = INT_TYPES.get(dt, (8 * n, False))
+    if bits != 8 * n:
+        return NotImplemented
+    return Int(simp(z3.Concat(*bs)), bits, sg)
+
+
+@contract(r'^core::num::<impl (u16|u32|u64|i16|i32|i64|usize)>::to_be_bytes$|^(u16|u32|u64|i16|i32|i64|usize)::to_be_bytes$|^core::num::to_be_bytes$'
+          r'|^core::num::<impl (u16|u32|u64|i16|i32|i64|usize)>::to_le_bytes$|^(u16|u32|u64|i16|i32|i64|usize)::to_le_bytes$')
+def int_to_bytes(ctx):
+    a = ctx.args[0]
+    if not isinstance(a, Int) or a.bits % 8:
+        return NotImplemented
+    n = a.bits // 8
+    bs = [simp(z3.Extract(8 * (n - i) - 1, 8 * (n - i - 1), a.t)) for i in range(n)]
+    if 'to_le' in ctx.callee:
+        bs = bs[::-1]
+    return Bytes.from_terms(bs, 'array')
+
+
+@contract(r'^(?:bytes::)?BytesMut::resize$|^Vec::<u8>::resize$')
+def bytes_resize(ctx):
+    """resize(new_len, value): keep the first min(len, new_len) bytes, pad with `value` up to new_len"""
+    ex, st = ctx.ex, ctx.st
+    loc = BufLoc(ex, st, ctx.args[0])
+    old = loc.val
+    n, v = ctx.args[1].t, ctx.args[2].t
+    loc.set(Bytes(lambda i, old=old, v=v: simp(z3.If(z3.ULT(i if not isinstance(i, int) else BV(i, 64), old.len), old.at(i), v)), simp(n), old.kind))
+    return UNIT
+
+
+@contract(r'VacantEntry::<.*>::insert$')
+def vacant_insert(ctx):
+    """VacantEntry::insert(value): the map gets (key -> value); returns a reference to the stored value"""
+    from contracts import get_map, map_lookup, strip_turbofish
+    ex, st = ctx.ex, ctx.st
+    vac = ctx.args[0]
+    if isinstance(vac, Ref):
+        vac = ex.deref(st, vac)
+    if not (isinstance(vac, Agg) and vac.name == 'VacantEntry'):
+        return NotImplemented
+    mref, key = vac.fields[0], vac.fields[1]
+    if not isinstance(key, Int):
+        return NotImplemented
+    m = get_map(ex, st, mref)
+    m2 = m.with_entry(key.t, z3.BoolVal(True), ctx.args[1])
+    ex.store(st, mref.cell, mref.path, m2)
+    st.trace.append(('map.insert', m.name, key.t))
+    return Ref(mref.cell, mref.path + (('mapval', len(m2.entries) - 1),))
+
+
+@contract(r'^VecDeque::<.*>::drain::<.*>$|^Vec::<(?!u8>).*>::drain::<.*>$')
+def seq_drain_prefix(ctx):
+    """drain(..n) / drain(a..b) on an explicit list: the drained elements as an iterator, removed from the container at once
+    (callers here consume the iterator completely)"""
+    ex, st = ctx.ex, ctx.st
+    v, loc = seq_loc(ex, st, ctx.args[0])
+    if not (isinstance(v, SeqV) and v.items is not None) or loc is None:
+        return NotImplemented
+    from contracts import range_bounds
+    try:
+        lo, hi = range_bounds(ex, st, ctx.args[1], BV(len(v.items), 64))
+    except Unsupported:
+        return NotImplemented
+    n = len(v.items)
+    ex.require(st, z3.And(z3.ULE(lo, hi), z3.ULE(hi, BV(n, 64))), 'drain-range', 'drain range out of bounds')
+    outs = []
+    for a in range(n + 1):
+        for b in range(a, n + 1):
+            c = simp(z3.And(lo == BV(a, 64), hi == BV(b, 64)))
+            if z3.is_false(c):
+                continue
+            t, _f = ex.branch(st, c)
+            if not t:
+                continue
+            s2 = st.fork()
+            ex.assume(s2, c)
+            items = list(v.items)
+            ex.store(s2, loc[0], loc[1], SeqV.from_items(items[:a] + items[b:], v.elem_ty, v.kind))
+            outs.append((s2, Agg('vec::IntoIter', {0: SeqV.from_items(items[a:b], v.elem_ty, 'vec'), 1: Int(BV(0, 64), 64, False)})))
+    if not outs:
+        raise PathDead()
+    return outs
+
+
+@contract(r"^<std::collections::vec_deque::Drain<.*> as IntoIterator>::into_iter$|^<std::vec::Drain<.*> as IntoIterator>::into_iter$")
+def drain_into_iter(ctx):
+    a = ctx.args[0]
+    if isinstance(a, Agg) and a.name == 'vec::IntoIter':
+        return a
+    return NotImplemented
+
+
+@contract(r"^<std::collections::vec_deque::Drain<.*> as Iterator>::next$|^<std::vec::Drain<.*> as Iterator>::next$")
+def drain_next(ctx):
+    return vec_into_iter_next(ctx)
+
+
+@contract(r'^core::num::<impl ([iu](?:8|16|32|64|size))>::(saturating|wrapping)_(add|sub)$|^core::num::(saturating|wrapping)_(add|sub)$|^([iu](?:8|16|32|64|size))::(saturating|wrapping)_(add|sub)$')
+def int_sat_wrap(ctx):
+    """saturating_/wrapping_ add/sub on machine integers"""
+    a, b = ctx.args[0], ctx.args[1]
+    if not (isinstance(a, Int) and isinstance(b, Int) and a.bits == b.bits):
+        return NotImplemented
+    bits, sg = a.bits, a.signed
+    add = ctx.callee.endswith('_add')
+    r = simp(a.t + b.t) if add else simp(a.t - b.t)
+    if 'wrapping_' in ctx.callee:
+        return Int(r, bits, sg)
+    if not sg:
+        if add:
+            over = z3.ULT(r, a.t)
+            return Int(simp(z3.If(over, BV((1 << bits) - 1, bits), r)), bits, sg)
+        under = z3.ULT(a.t, b.t)
+        return Int(simp(z3.If(under, BV(0, bits), r)), bits, sg)
+    wa, wb = z3.SignExt(1, a.t), z3.SignExt(1, b.t)
+    wr = wa + wb if add else wa - wb
+    hi, lo = z3.BitVecVal((1 << (bits - 1)) - 1, bits + 1), z3.BitVecVal(-(1 << (bits - 1)), bits + 1)
+    sat = z3.If(wr > hi, z3.Extract(bits - 1, 0, hi), z3.If(wr < lo, z3.Extract(bits - 1, 0, lo), r))
+    return Int(simp(sat), bits, sg)
+
+
+@contract(r'^core::num::<impl ([iu](?:8|16|32|64|size))>::checked_(add|sub)$|^core::num::checked_(add|sub)$|^([iu](?:8|16|32|64|size))::checked_(add|sub)$')
+def int_checked_addsub(ctx):
+    ex = ctx.ex
+    a, b = ctx.args[0], ctx.args[1]
+    if not (isinstance(a, Int) and isinstance(b, Int) and a.bits == b.bits):
+        return NotImplemented
+    bits, sg = a.bits, a.signed
+    add = ctx.callee.endswith('_add')
+    r = simp(a.t + b.t) if add else simp(a.t - b.t)
+    if not sg:
+        ok = z3.Not(z3.ULT(r, a.t)) if add else z3.Not(z3.ULT(a.t, b.t))
+    else:
+        wa, wb = z3.SignExt(1, a.t), z3.SignExt(1, b.t)
+        wr = wa + wb if add else wa - wb
+        ok = wr == z3.SignExt(1, r)
+    return Agg('Option', {}, simp(z3.If(ok, BV(1, 64), BV(0, 64))), {1: {0: Int(r, bits, sg)}}, ex.si.enums['Option'])
+
+
+@contract(r'^<std::iter::Map<std::slice::Iter<.*>, .*> as Iterator>::collect::<.*>$')
+def iter_map_collect(ctx):
+    """slice.iter().map(f).collect() into Vec<T> or Result<Vec<T>, E> (stops at the first Err), with the real closure"""
+    ex, st = ctx.ex, ctx.st
+    m = ctx.args[0]
+    if isinstance(m, Ref):
+        m = ex.load(st, m.cell, m.path)
+    if not (isinstance(m, Agg) and m.name == 'iter::Map'):
+        return NotImplemented
+    elems = _explicit_elems(ctx, m.fields[0])
+    if elems is None:
+        return NotImplemented
+    tm = re.search(r'::collect::<(.*)>$', ctx.callee, re.S)
+    target = tm.group(1).strip() if tm else ''
+    into_result = last_seg(generic_args(target)[0]) == 'Result'
+    if not into_result and last_seg(generic_args(target)[0]) != 'Vec':
+        return NotImplemented
+    ccell = st.alloc(m.fields[1])
+    frontier = [(st, [])]
+    done = []
+    for e in elems:
+        nxt = []
+        for s, acc in frontier:
+            c2 = type(ctx)(ex, s, ctx.fr, ctx.callee, ctx.args, ctx.dest_ty)
+            rs = apply_callable(c2, Ref(ccell, (), True), [e])
+            if rs is None:
+                return NotImplemented
+            for s2, r in rs:
+                if not into_result:
+                    nxt.append((s2, acc + [r]))
+                    continue
+                if not isinstance(r, Agg) or r.discr is None:
+                    return NotImplemented
+                d = r.discr
+                is_ok = z3.BoolVal(d == 0) if isinstance(d, int) else simp(d == BV(0, 64))
+                t, f = ex.branch(s2, is_ok)
+                if f:
+                    s3 = s2.fork() if t else s2
+                    ex.assume(s3, z3.Not(is_ok))
+                    errv = r.variants.get(1, {}).get(0)
+                    done.append((s3, mk_result(ex, err=errv if errv is not None else Opaque('error', 'err'))))
+                if t:
+                    ex.assume(s2, is_ok)
+                    nxt.append((s2, acc + [payload(ex, s2, r, 0, 0, 'unknown')]))
+        frontier = nxt
+    for s, acc in frontier:
+        vec = SeqV.from_items(acc, None, 'vec')
+        done.append((s, mk_result(ex, ok=vec) if into_result else vec))
+    return done
+
+
+@contract(r'^core::num::<impl ([iu](?:8|16|32|64|size))>::rem_euclid$|^core::num::rem_euclid$|^([iu](?:8|16|32|64|size))::rem_euclid$')
+def int_rem_euclid(ctx):
+    """rem_euclid: for unsigned integers the plain remainder (panics on a zero divisor like %)"""
+    ex, st = ctx.ex, ctx.st
+    a, b = ctx.args[0], ctx.args[1]
+    if not (isinstance(a, Int) and isinstance(b, Int) and a.bits == b.bits) or a.signed:
+        return NotImplemented
+    ex.require(st, b.t != BV(0, b.bits), 'rem-zero', 'attempt to calculate the remainder with a divisor of zero')
+    if a.bits == 64:
+        q, r = ex.divmod(st, a.t, b.t)
+        return Int(r, 64, False)
+    return Int(simp(z3.URem(a.t, b.t)), a.bits, False)
